@@ -432,6 +432,7 @@ func (w *world) observe(sd *side) snapshot {
 var restartComponents = map[string][]string{
 	"contracts":         {"contracts"},
 	"roots":             {"roots", "m:roots"},
+	"roots_vs_revision": {"m:rootsvalid"},
 	"volumes":           {"volumes", "m:volumes"},
 	"sectors":           {"sectors", "m:reads"},
 	"accounts":          {"accounts", "m:balances"},
